@@ -1,1 +1,355 @@
-"""Model of copy, equals and the text format."""
+"""Model of TryToCopyFrom, Equals and the text format (World B, C06 and C20)."""
+
+import struct as _struct
+
+from worldb import desc as D
+from worldb import model as M
+
+
+# ---------------------------------------------------------------------------
+# Equals
+
+
+def _float_eq(bits_a, bits_b, width):
+    fmt = "<f" if width == 32 else "<d"
+    pk = "<I" if width == 32 else "<Q"
+    a = _struct.unpack(fmt, _struct.pack(pk, bits_a))[0]
+    b = _struct.unpack(fmt, _struct.pack(pk, bits_b))[0]
+    return a == b  # NaN != NaN, +0 == -0: "reads equal" by operator==
+
+
+def equals(a, b, depth=0):
+    """Logical equality of two Ok views of the same structure type (None = not decidable)."""
+    for name, f, container in a.fields():
+        if isinstance(f.type, D.AnonBits):
+            continue
+        ha, hb = a.has(name), b.has(name)
+        if ha is None or hb is None:
+            return False
+        if ha != hb:
+            return False
+        if not ha or f.is_virtual:
+            continue
+        t = f.type
+        if isinstance(t, D.Scalar):
+            va, vb = a.read(name), b.read(name)
+            if va is None or vb is None:
+                return None
+            if t.kind == "Float":
+                if not _float_eq(va[1], vb[1], t.bits):
+                    return False
+            elif va != vb:
+                return False
+        elif isinstance(t, D.StructRef):
+            r = equals(a.sub_env(name), b.sub_env(name), depth + 1)
+            if r is not True:
+                return r
+        elif isinstance(t, D.ArrayT):
+            ia, ib = a.array_info(name), b.array_info(name)
+            if ia is None or ib is None:
+                return None
+            if ia[0] != ib[0]:
+                return False
+            for i in range(ia[0]):
+                if isinstance(t.elem, D.StructRef):
+                    r = equals(a.sub_env(name, i), b.sub_env(name, i), depth + 1)
+                    if r is not True:
+                        return r
+                else:
+                    va, vb = a.array_elem_read(name, i), b.array_elem_read(name, i)
+                    if va is None or vb is None:
+                        return None
+                    if t.elem.kind == "Float":
+                        if not _float_eq(va[1], vb[1], t.elem_bits):
+                            return False
+                    elif va != vb:
+                        return False
+    return True
+
+
+def equals_str(denv, senv):
+    if not (denv.ok() and senv.ok()):
+        return "n/a"
+    r = equals(denv, senv)
+    if r is None:
+        return None
+    r2 = equals(senv, denv)
+    return ("1" if r else "0") + ("1" if r2 else "0")
+
+
+# ---------------------------------------------------------------------------
+# TryToCopyFrom
+
+
+def copy(script, denv, senv, op):
+    """Applies memmove semantics to the model's arenas; returns the expectation."""
+    ok = senv.ok()
+    size = senv.size() if ok else None
+    fits = ok and denv.store.ok and denv.store.avail >= size
+    dst = script.arenas[op["arena"]]
+    src = script.arenas[op["src"]]
+    if fits:
+        data = bytes(src[senv.store.lo: senv.store.lo + size])
+        dst[denv.store.lo: denv.store.lo + size] = data
+    return {"result": "1" if fits else "0", "dst": bytes(dst).hex(), "src": bytes(src).hex(),
+            "facts": {"src_ok": bool(ok), "fits": bool(fits), "same_arena": op["arena"] == op["src"],
+                      "overlap": op["arena"] == op["src"] and size is not None and abs(op["off"] - op["soff"]) < size,
+                      "direction": "forward" if op["off"] < op["soff"] else "backward" if op["off"] > op["soff"] else "same"}}
+
+
+# ---------------------------------------------------------------------------
+# text
+
+
+def has_skip(module, sd, seen=None):
+    seen = seen or set()
+    if sd.name in seen:
+        return False
+    seen.add(sd.name)
+    for f in sd.fields:
+        if f.skip:
+            return True
+        mems = f.type.members if isinstance(f.type, D.AnonBits) else []
+        if any(m.skip for m in mems):
+            return True
+        t = f.type
+        if isinstance(t, D.ArrayT):
+            t = t.elem
+        if isinstance(t, D.StructRef) and has_skip(module, module.struct(t.name), seen):
+            return True
+    return False
+
+
+def emitted_pairs(env, prefix="v"):
+    """Expectations for the observation of a view restored from the text of `env`:
+    presence pattern and the value of every emitted physical scalar."""
+    pairs = []
+    M.observe(env, prefix, pairs)
+    skip_prefixes = []
+    _collect_skips(env, prefix, skip_prefixes)
+    out = []
+    for key, value, facts in pairs:
+        if facts["kind"] not in ("has", "scalar.val", "elem.val", "array.count"):
+            continue
+        stem = key
+        if any(stem == p or stem.startswith(p + ".") or stem.startswith(p + "[") for p in skip_prefixes):
+            continue
+        if facts["kind"] == "has":
+            name = key.rsplit(".has_", 1)
+            if any((name[0] + "." + name[1]) == p for p in skip_prefixes):
+                pass
+        out.append((key, value, dict(facts, restored=True)))
+    return out
+
+
+def _collect_skips(env, prefix, out, depth=0):
+    for name, f, container in env.fields():
+        if isinstance(f.type, D.AnonBits):
+            continue
+        p = f"{prefix}.{name}"
+        if f.skip or (container is not None and container.skip):
+            out.append(p)
+            continue
+        if env.has(name) is not True or f.is_virtual:
+            continue
+        t = f.type
+        if isinstance(t, D.StructRef) and depth < 3:
+            sub = env.sub_env(name)
+            if sub is not None:
+                _collect_skips(sub, p, out, depth + 1)
+        elif isinstance(t, D.ArrayT) and isinstance(t.elem, D.StructRef):
+            info = env.array_info(name)
+            if info is not None and env.array_extent_present(name):
+                for i in range(min(info[0], M.MAX_ELEMS)):
+                    _collect_skips(env.sub_env(name, i), f"{p}[{i}]", out, depth + 1)
+
+
+def fmt_int(rng, v):
+    style = rng.choice(["dec", "dec", "hex", "bin", "dec_", "hex_"])
+    neg = v < 0
+    a = -v if neg else v
+    if style == "dec":
+        s = str(a)
+    elif style == "hex":
+        s = hex(a)
+    elif style == "bin":
+        s = bin(a)
+    elif style == "dec_":
+        s = f"{a:,}".replace(",", "_")
+    else:
+        h = f"{a:x}"
+        groups = []
+        while h:
+            groups.insert(0, h[-4:])
+            h = h[:-4]
+        s = "0x" + "_".join(groups)
+    return ("-" if neg else "") + s
+
+
+def literal_text(rng, env, depth=0, corrupt=None):
+    """Text in the documented format for the values of `env` (floats omitted);
+    returns (text, [(env-relative path, value)] in text order)."""
+    parts = []
+    sets = []
+    for name, f, container in env.fields():
+        if isinstance(f.type, D.AnonBits) or f.is_virtual:
+            continue
+        if env.has(name) is not True:
+            continue
+        t = f.type
+        if isinstance(t, D.Scalar):
+            if t.kind == "Float":
+                continue
+            v = env.read(name)
+            if v is None:
+                continue
+            txt = _scalar_text(rng, env, t, v)
+            if corrupt is not None and corrupt.get("path") == name and depth == corrupt.get("depth", 0):
+                txt = corrupt["text"]
+            parts.append(f"{name}: {txt}")
+            sets.append(((name,), v))
+        elif isinstance(t, D.StructRef) and depth < 3:
+            sub = env.sub_env(name)
+            if sub is None or not sub.store.ok:
+                continue
+            st, ss = literal_text(rng, sub, depth + 1)
+            parts.append(f"{name}: {st}")
+            sets += [((name,) + p, v) for p, v in ss]
+        elif isinstance(t, D.ArrayT):
+            info = env.array_info(name)
+            if info is None or not env.array_extent_present(name) or info[0] > 12:
+                continue
+            elems = []
+            for i in range(info[0]):
+                if isinstance(t.elem, D.StructRef):
+                    st, ss = literal_text(rng, env.sub_env(name, i), depth + 1)
+                    elems.append(st)
+                    sets += [((name, i) + p, v) for p, v in ss]
+                else:
+                    if t.elem.kind == "Float":
+                        elems = None
+                        break
+                    v = env.array_elem_read(name, i)
+                    if v is None:
+                        elems = None
+                        break
+                    elems.append(_scalar_text(rng, env, D.Scalar(t.elem.kind, t.elem_bits, t.elem.enum), v))
+                    sets.append(((name, i), v))
+            if elems is None:
+                continue
+            if rng.random() < 0.3 and elems:
+                elems = [f"[{i}]: {e}" for i, e in enumerate(elems)]
+            parts.append(f"{name}: {{ " + ", ".join(elems) + (", " if rng.random() < 0.3 and elems else " ") + "}")
+    sep = rng.choice([", ", ",\n  ", "\n  ", " "]) if depth == 0 else rng.choice([", ", " "])
+    body = sep.join(parts)
+    if depth == 0 and rng.random() < 0.3:
+        body += "  # trailing comment\n"
+    return "{ " + body + " }", sets
+
+
+def _scalar_text(rng, env, t, v):
+    if t.kind == "Flag":
+        return "true" if v else "false"
+    if t.kind == "Enum":
+        e = env.m.enum(t.enum)
+        names = [n for n, val in e.values if val == v]
+        if names and rng.random() < 0.7:
+            return names[0]
+        return fmt_int(rng, v)
+    return fmt_int(rng, v)
+
+
+def add_text_op(script, op, op_no):
+    k = op["op"]
+    st, params = op.get("struct"), op.get("params")
+    if k == "dump":
+        n = script._add(f"T {st} {script._params(params)} {op['arena']} {op['off']} {op['len']} {op['ml']} {op['cm']} {op['grp']} {op['base']} {op['slot']}", op_no)
+        script.expect[n] = {"kind": "dump", "op_no": op_no}
+    elif k == "channel":
+        n = script._add(f"X {op['slot']} {op['kind']} {op['arg']}", op_no)
+        script.expect[n] = {"kind": "channel", "op_no": op_no}
+    elif k == "restore_slot":
+        n = script._add(f"R {st} {script._params(params)} {op['arena']} {op['off']} {op['len']} @{op['slot']}", op_no)
+        script.expect[n] = {"kind": "restore", "expected": op.get("expect"), "op_no": op_no,
+                            "facts": {"multiline": bool(op.get("ml")), "faulted": bool(op.get("faulted")),
+                                      "has_array": bool(op.get("has_array"))}}
+        script.untracked = getattr(script, "untracked", set()) | {op["arena"]}
+        script.last_restore_line = n
+    elif k == "restore_literal":
+        env = script.env(st, params, op["arena"], op["off"], op["len"])
+        expected = op.get("expect")
+        exp_bytes = None
+        if expected == "1":
+            ok = True
+            for path, v in op["sets"]:
+                if not _apply_set(script, st, params, op, tuple(path), v):
+                    ok = False
+                    break
+            if ok:
+                exp_bytes = bytes(script.arenas[op["arena"]]).hex()
+            else:
+                expected = None
+                script.untracked = getattr(script, "untracked", set()) | {op["arena"]}
+        else:
+            script.untracked = getattr(script, "untracked", set()) | {op["arena"]}
+        text = op["text"].replace("\\", "\\\\").replace("\n", "\\n")
+        n = script._add(f"R {st} {script._params(params)} {op['arena']} {op['off']} {op['len']} {text}", op_no)
+        script.expect[n] = {"kind": "restore", "expected": expected, "bytes": exp_bytes, "op_no": op_no,
+                            "facts": {"literal": True, "corrupted": bool(op.get("corrupted")), "corruption": op.get("corruption")}}
+        script.last_restore_line = n
+    elif k == "observe_restored":
+        env = script.env(st, params, op["like_arena"], op["like_off"], op["like_len"])
+        pairs = emitted_pairs(env)
+        n = script._add(f"O {st} {script._params(params)} {op['arena']} {op['off']} {op['len']}", op_no)
+        script.expect[n] = {"kind": "observe", "pairs": pairs, "op_no": op_no, "requires_line": script.last_restore_line,
+                            "requires": ("restore", "1"), "restored": True}
+    elif k == "equals_restored":
+        n = script._add(f"E {st} {script._params(params)} {op['arena']} {op['off']} {op['len']} {op['src']} {op['soff']} {op['slen']}", op_no)
+        script.expect[n] = {"kind": "equals", "value": op.get("expect"), "op_no": op_no, "requires_line": script.last_restore_line,
+                            "requires": ("restore", "1"), "restored": True}
+    else:
+        raise ValueError(k)
+
+
+def _apply_set(script, st, params, op, path, v):
+    """Writes one `name: value` of a literal text into the model's arena; False if the model cannot."""
+    e = script.env(st, params, op["arena"], op["off"], op["len"])
+    i = 0
+    while True:
+        name = path[i]
+        nxt = path[i + 1] if i + 1 < len(path) else None
+        if nxt is None:
+            return M.try_write(e, name, v) is True
+        if isinstance(nxt, int):
+            if i + 2 == len(path):
+                return _write_elem(e, name, nxt, v)
+            e = e.sub_env(name, nxt)
+            i += 2
+        else:
+            e = e.sub_env(name)
+            i += 1
+        if e is None or not e.store.ok:
+            return False
+
+
+def _write_elem(e, name, idx, v):
+    f, _c = e.lookup(name)
+    t = f.type
+    info = e.array_info(name) if e.has(name) is True else None
+    if info is None or idx >= info[0] or not e.array_extent_present(name):
+        return False
+    et = D.Scalar(t.elem.kind, t.elem_bits, t.elem.enum)
+    if not M.representable(et, v, e.m):
+        return False
+    est = e.field_store(name)
+    eu = t.elem_bits // e.s.unit
+    sub = est.sub(idx * eu, eu)
+    raw = M.encode_scalar(et, v, e.m)
+    if isinstance(sub, M.ByteStore):
+        if sub.avail != eu:
+            return False
+        sub.buf[sub.lo: sub.lo + eu] = raw.to_bytes(eu, "big" if e._order(f) == "BigEndian" else "little")
+    else:
+        sub.write_uint(raw)
+    e._memo.clear()
+    return True
